@@ -634,6 +634,11 @@ void upolynomial_roots_find_brute_force(const lp_upolynomial_t* f, lp_integer_t*
   integer_destruct(&x);
 }
 
+#ifdef LIBPOLY_VERIF
+/** Verification-only hook: when non-zero, upolynomial_roots_find_Zp takes the randomised branch for every field size. */
+int lp_verif_force_rabin = 0;
+#endif
+
 void upolynomial_roots_find_Zp(const lp_upolynomial_t* f, lp_integer_t** roots, size_t* roots_size) {
   if (trace_is_enabled("roots")) {
     tracef("upolynomial_roots_find_Zp("); lp_upolynomial_print(f, trace_out); tracef(")\n");
@@ -647,6 +652,11 @@ void upolynomial_roots_find_Zp(const lp_upolynomial_t* f, lp_integer_t** roots, 
   *roots = malloc(sizeof(lp_integer_t) * d);
 
   // depending on the finite field size, choose appropriate function
+#ifdef LIBPOLY_VERIF
+  if (lp_verif_force_rabin) {
+    upolynomial_roots_find_rabin(f, *roots, roots_size);
+  } else
+#endif
   if (integer_cmp_int(lp_Z, &K->M, FIELD_ORDER_LIMIT) < 0) {
     upolynomial_roots_find_brute_force(f, *roots, roots_size);
   } else {
